@@ -183,6 +183,9 @@ func c06RunLib(c c06Case) c06Lib {
 var c06OwnerIsRoot bool
 
 func c06Optional(c c06Case, m *gen.Node) bool {
+	if m.KeyIsRef {
+		return true // a key shortcut stands for any number of members, none included
+	}
 	if (c06OwnerIsRoot && c.OptDefault) || (!c06OwnerIsRoot && c.OptTypes) {
 		v, ok := m.Rule("optional")
 		return !ok || v.Lit != "false"
@@ -1013,6 +1016,7 @@ type c06Gen struct {
 	targets []string
 	self    int  // index of the type being generated in targets, -1 for none
 	soft    bool // fewer required links
+	keyRefs bool // objects may have a member described by a key shortcut
 }
 
 func (g *c06Gen) target() string {
@@ -1148,8 +1152,15 @@ func (g *c06Gen) object() *gen.Node {
 		}
 		o.Children = append(o.Children, n.K("m"+strconv.Itoa(i+1)))
 	}
+	if g.keyRefs && g.rng.IntN(8) == 0 {
+		// one member described by a key shortcut instead of a name
+		o.Children[g.rng.IntN(len(o.Children))].KRefKey(c06KeyType)
+	}
 	return o
 }
+
+// c06KeyType is the string type used for key shortcuts.
+const c06KeyType = "@k"
 
 // setLink makes sure object o has the member value v (replacing a member or appended).
 func (g *c06Gen) setLink(o *gen.Node, v *gen.Node) {
@@ -1195,7 +1206,7 @@ func c06Random(rng *rand.Rand) (c06Case, string) {
 	for i := 1; i <= k; i++ {
 		further = append(further, "@t"+strconv.Itoa(i))
 	}
-	g := &c06Gen{rng: rng, soft: mode == 3 || mode == 4}
+	g := &c06Gen{rng: rng, soft: mode == 3 || mode == 4, keyRefs: rng.IntN(5) == 0}
 	if c.Reg {
 		g.targets = append([]string{c06RootName}, further...)
 	} else {
@@ -1205,6 +1216,17 @@ func c06Random(rng *rand.Rand) (c06Case, string) {
 	p := &gen.Project{}
 	g.self = off - 1
 	p.Root = g.object()
+	if c.Reg && len(further) > 0 && rng.IntN(25) == 0 {
+		// the root is a type choice (that may name the root itself) or one type name
+		if rng.IntN(3) == 0 {
+			p.Root = gen.Ref(g.target())
+		} else {
+			p.Root = g.choice()
+		}
+		if rng.IntN(4) == 0 {
+			p.Root.R("nullable", "true")
+		}
+	}
 	for i, name := range further {
 		g.self = off + i
 		var n *gen.Node
@@ -1345,6 +1367,19 @@ func c06Random(rng *rand.Rand) (c06Case, string) {
 			rename(t.Node)
 		}
 		label += " + names that contain each other"
+	}
+	if g.keyRefs {
+		used := false
+		see := func(n *gen.Node) {
+			n.Walk(func(m *gen.Node) { used = used || m.KeyIsRef })
+		}
+		see(p.Root)
+		for _, t := range p.Types {
+			see(t.Node)
+		}
+		if used {
+			p.Types = append(p.Types, gen.NamedNode{Name: c06KeyType, Node: gen.Str("abc")})
+		}
 	}
 	return c, label
 }
